@@ -115,10 +115,62 @@ add(property='C05', id='C05-parabola-cancellation', status='open', clause='chief
          'tests/test_operand.py::TestRayOperand::test_opd_diff_on_axis (which pins this noise for the Hubble sample), '
          'so it is recorded, not repaired',
     region='lens contains a standard conic surface with |1+k| < 0.05',
-    weakened_relation='|delta(eps)| <= 4 K eps^2 + floor + 1e-12 max(L,|R|max)/eps^2',
+    weakened_relation='|delta(eps)| <= 4 K eps^2 + floor + 1e-12 max(L,|R|max)/eps^2 + 10 |slope| sum_k 1e-15 |R_k| / |L^2+M^2+(1+k)N^2| '
+                      '(the loss of the root for the direction with which the ray reaches each near-parabolic surface k)',
     reproducer={'spec': spec([surf(R=12.0, t=3.455728090000841, mat=glass(1.5214), stop=True), surf(R='inf', t=0.36),
                               surf(R=10.585374853750517, k=-1.0, t=3.5284582845835057, mat=glass(1.5214))],
                              ap=('EPD', 16.0), fields=(0.0, 1.0), img=glass(1.5214))})
+
+add(property='C12', id='C12-parabola-cancellation', status='open', clause='field_curvature_is_coddington_focus',
+    what='same root cause as C05-parabola-cancellation (cancellation in the conic root for |1+k| << 1 and near-axial '
+         'rays): FieldCurvature intersects parabasal rays launched at pupil +-1e-5, whose heights on a paraboloid carry '
+         'that noise, so the reported tangential/sagittal foci are wrong, e.g. singlet R=50/-60 (k=-1), n=1.6, EPD 2: '
+         'on-axis focus 4.5245 instead of 4.5087 from the image surface; the repair changes a value pinned by '
+         'tests/test_operand.py::TestRayOperand::test_opd_diff_on_axis, so it is recorded, not repaired',
+    region='field-curvature analysis of a lens that contains a standard conic surface with |1+k| < 0.05',
+    weakened_relation='inside the region the two focus clauses (Coddington, plane-image twin) are not judged; the '
+                      'analysis must still run and every other analysis of such lenses is judged at full strength',
+    reproducer={'spec': spec([surf(R=50.0, t=5.0, mat=glass(1.6), stop=True), surf(R=-60.0, k=-1.0, t=40.0)],
+                             ap=('EPD', 2.0), fields=(0.0, 5.0)),
+                'analysis': 'field_curvature', 'fields': 'all', 'wls': 'all', 'n': 0, 'h': 0.0, 'px': 0.0, 'py': 0.0})
+
+add(property='C11', id='C11-inverted-pupil-fno', status='open', clause='mtf_cutoff_value',
+    what='FFTMTF._get_fno (and FFTPSF._get_psf_units) form the working F-number of a finite-conjugate lens as '
+         'F (1 + |m| / p) with p = XPD / EPD signed: when the exit pupil is inverted (paraxial XPD < 0, e.g. entrance pupil '
+         'behind the object) the result is wrong and can be negative, e.g. object at 5 mm, four surfaces, stop last: '
+         'cut-off -221.06 cycles/mm instead of +221.06 = 1 / (lambda / (2 n\' |u\'|)); the signed form F |1 - m / p| '
+         'is right there but changes the value pinned by tests/test_psf.py::test_get_units_finite_obj (a lens with '
+         'its object placed at z = +1e6), so it is recorded, not repaired',
+    region='finite object, image in air, reference pupil magnification XPD/EPD < 0',
+    weakened_relation="max_freq == 1 / (lambda F (1 + |m| / p)) with the reference's F, m and signed p",
+    reproducer={'spec': spec([surf(R='inf', t=0.1, mat=glass(2.0)), surf(R=-4.548927389608848, t=3.83355563378719),
+                              surf(R=14.688321690140878, t=4.531844585692018, mat=glass(1.3)),
+                              surf(R=-8.150272603165785, t=11.223691945664376, stop=True)],
+                             t_obj=5.0, ap=('EPD', 2.0), fields=(0.0,), wls=(0.5,)),
+                'G': 64, 'N': 16, 'clip': False, 'defocus': 0.0, 'fld': 0, 'ideal': False, 'mtf': True})
+
+_par = spec([surf(R='inf', t=-0.1, mat=MIRROR, ry=1.8e-6, stop=True, hd=1.0), surf(R=1.82, k=-1.0, t=0.6, mat=MIRROR, hd=1.0)],
+            ap=('EPD', 2.0), fields=(0.0,), wls=(0.5,))
+add(property='C02', id='C02-parabola-cancellation', status='open', clause='on_surface',
+    what='same root cause as C05-parabola-cancellation: StandardGeometry.distance solves the conic quadratic as '
+         '(-b - sqrt(b^2-4ac))/(2a); on a paraboloid (|1+k| << 1) reached by an almost axial ray a = c (L^2+M^2+(1+k)N^2) '
+         '-> 0 and the root cancels: the recorded intersection point lies off the surface, e.g. paraboloid mirror R=1.82 '
+         'reached by rays with L = 3.6e-6: 6e-6 mm off the surface (tolerance 2e-9); the stable-root repair changes the '
+         'value pinned by tests/test_operand.py::TestRayOperand::test_opd_diff_on_axis, so it is recorded, not repaired',
+    region='standard conic surface with |1+k| < 0.05 reached by a ray with 0 < |L^2+M^2+(1+k)N^2| < 1e-4',
+    weakened_relation='the clauses of that surface allow a displacement of 1e-15 / |c (L^2+M^2+(1+k)N^2)| along the ray '
+                      '(on_surface, optical_path, and |c| times it in the refraction / reflection law)',
+    reproducer={'kind': 'spec', 'spec': _par, 'rays': [[0.0, 0.0, 0.0], [0.0, 0.1, 0.0]], 'wl': 0})
+
+add(property='C02', id='C02-axial-parabola-backward', status='fixed', commit='45f9b63', clause='segment_follows_direction',
+    what='fixed: property=C02 45f9b63 a paraboloid (k=-1) met by a ray exactly parallel to its axis takes the a == 0 '
+         'branch t = -c/b of the conic intersection, which had no t < 0 test: a paraboloid lying entirely behind the ray '
+         'was reached by propagating backwards (segment -0.235 mm) instead of the ray being reported as missing',
+    reproducer={'kind': 'spec', 'spec': spec([surf(R='inf', t=-0.05, mat=MIRROR, stop=True, hd=1.0),
+                                             surf(R='inf', t=0.09776301543271924, mat=MIRROR, hd=1.0),
+                                             surf(R=-1.5026194022865764, k=-1.0, t=-0.5008731340955255, mat=MIRROR, hd=1.0)],
+                                            ap=('EPD', 2.0), fields=(0.0,), wls=(0.5,)),
+                'rays': [[0.0, 0.0, 0.0], [0.0, 1.0, 0.0]], 'wl': 0})
 
 add(property='C01', id='C01-solve-slope', status='fixed', commit='08843a4', clause='solve_places_marginal_ray',
     what='fixed: property=C01 08843a4 marginal_ray_height solve (and image_solve) used the marginal slope behind the '
